@@ -592,6 +592,12 @@ def _summarise_death(rc, err):
     return "DIED rc=%s %s %s" % (rc, m.group(1)[:200] if m else err.strip()[-200:].replace("\n", " "), loc.group(1) if loc else "")
 
 
+# once a harness process has hung in this check run (a violation is going to be reported anyway), later attempts and later stages
+# wait much less: a tree on which the library does not terminate must not keep a quick check busy for hours
+_TIMEOUTS_SEEN = [0]
+AFTER_HANG_TIMEOUT = 150
+
+
 def _run_resilient(cmd, lines, timeout, env=None):
     """runs cmd over the case lines; when the process dies (sanitizer report, abort, timeout) the case it
     died on gets a 'DIED ...' result line and the run resumes after it"""
@@ -601,14 +607,16 @@ def _run_resilient(cmd, lines, timeout, env=None):
     ntimeouts = 0
     while rest and guard < 200 and ntimeouts < 2:
         guard += 1
+        eff = timeout if not _TIMEOUTS_SEEN[0] else min(timeout, AFTER_HANG_TIMEOUT)
         try:
-            p = subprocess.run(cmd, input="\n".join(rest) + "\n", capture_output=True, text=True, timeout=timeout, env=env)
+            p = subprocess.run(cmd, input="\n".join(rest) + "\n", capture_output=True, text=True, timeout=eff, env=env)
             rc, so, se = p.returncode, p.stdout, p.stderr
         except subprocess.TimeoutExpired as e:
             rc = "timeout"
             ntimeouts += 1
+            _TIMEOUTS_SEEN[0] += 1
             so = e.stdout.decode() if isinstance(e.stdout, bytes) else (e.stdout or "")
-            se = "TIMEOUT after %ss (the process did not finish this case: non-termination or far too slow)" % timeout
+            se = "TIMEOUT after %ss (the process did not finish this case: non-termination or far too slow)" % eff
         got = so.split("\n")
         if got and got[-1] == "":
             got = got[:-1]
